@@ -1,7 +1,7 @@
 SPECIFICATION TSpec
 CONSTANTS
   Clients = {"X", "Y"}
-  Defs = {"A", "B", "R"}
+  Defs = {"A", "B", "R", "P"}
   MaxOps = 0
   Dev = {}
 POSTCONDITION Accepted
